@@ -97,6 +97,9 @@ pub(crate) enum Token<'a> {
 
     /// Unknown token, not expected by the lexer, e.g. "№"
     Illegal,
+
+    /// End of input. Never produced by the tokenizer itself: the parser substitutes it once the tokenizer runs dry.
+    Eof,
 }
 
 /// Peekable iterator over a char sequence.
